@@ -3,3 +3,15 @@
 ; ASCII lower-casing of one byte (RFC 6125 6.4.1 / RFC 4343: only 'A'..'Z' are folded)
 ;; spec lc (b uint8) uint8
 (define-fun lc ((b (_ BitVec 8))) (_ BitVec 8) (ite (and (bvule #x41 b) (bvule b #x5a)) (bvadd b #x20) b))
+; Names for the result of splitting string s at every occurrence of byte c (strings.Split
+; with a one-byte separator). They are uninterpreted: everything known about them is the
+; characterisation assumed in the contract of strings.Split (/verif/extern/hostname.contracts):
+; nparts >= 1, part k occupies s[partoff k : partoff (k+1) - 1], consecutive parts are
+; separated by exactly one byte c, and no part contains c. That characterisation has
+; exactly one solution for every s, so the names are well defined.
+;; spec nparts (s string, c uint8) int
+(declare-fun nparts (Str (_ BitVec 8)) (_ BitVec 64))
+;; spec partoff (s string, c uint8, k int) int
+(declare-fun partoff (Str (_ BitVec 8) (_ BitVec 64)) (_ BitVec 64))
+;; spec part (s string, c uint8, k int) string
+(declare-fun part (Str (_ BitVec 8) (_ BitVec 64)) Str)
